@@ -58,31 +58,32 @@ ASSUMPTIONS = [
 ]
 TRUSTED_BASE = ['shlex.quote', 'shell_literal_word (quote removal)', 'recording fakes for batch client / remote fs', 'pickle-backed dill shim']
 SHARDS = {'quick': 1, 'thorough': 16}
-TIMEOUT = {'quick': 300, 'thorough': 900}
+TIMEOUT = {'quick': 600, 'thorough': 1800}
 
 
 def FLOORS(tier):
-    k = 1 if tier == 'quick' else 20
+    # ~40 % of what a complete quick run (1400 programs) observes; thorough = 16 shards x 1700 programs
+    k = 1 if tier == 'quick' else 15
     return {
-        'evaluations': 300 * k,
-        'jobs_submitted': 800 * k,
-        'literal_segments_identical': 3000 * k,
-        'references_checked': 2000 * k,
-        'cross_job_file_reads': 400 * k,
-        'cross_job_group_reads': 60 * k,
-        'input_reads': 300 * k,
-        'local_input_uploads': 30 * k,
-        'input_group_symlink_reads': 20 * k,
-        'external_outputs_checked': 150 * k,
-        'extension_before_mention': 20 * k,
-        'python_consumer_args_checked': 60 * k,
-        'python_result_reads': 20 * k,
-        'converted_result_reads': 20 * k,
-        'code_sh_commands': 3 * k,
-        'parents_checked': 400 * k,
-        'distinctness_paths_compared': 1500 * k,
-        'token_space_cases': 20 * k,
-        'digit_probes_placed': 10 * k,
+        'evaluations': 1000 * k,
+        'jobs_submitted': 2000 * k,
+        'literal_segments_identical': 10000 * k,
+        'references_checked': 8000 * k,
+        'cross_job_file_reads': 1200 * k,
+        'cross_job_group_reads': 500 * k,
+        'input_reads': 2500 * k,
+        'local_input_uploads': 400 * k,
+        'input_group_symlink_reads': 250 * k,
+        'external_outputs_checked': 1800 * k,
+        'extension_before_mention': 500 * k,
+        'python_consumer_args_checked': 700 * k,
+        'python_result_reads': 50 * k,
+        'converted_result_reads': 120 * k,
+        'code_sh_commands': 60 * k,
+        'parents_checked': 1500 * k,
+        'distinctness_paths_compared': 8000 * k,
+        'token_space_cases': 80 * k,
+        'digit_probes_placed': 60 * k,
     }
 
 
@@ -1218,7 +1219,7 @@ def run(ctx):
     import gc
 
     gc.disable()  # Backend.__del__ runs the event loop: let the cyclic GC run between cases only
-    phases = [('main', ctx.pick(1200, 2500)), ('tokens', ctx.pick(100, 150)), ('digits', ctx.pick(100, 150))]
+    phases = [('main', ctx.pick(1200, 1500)), ('tokens', ctx.pick(100, 100)), ('digits', ctx.pick(100, 100))]  # ~10 ms per program
     for phase, n in phases:
         for i, rng in ctx.cases(n, phase):
             case = gen_case(rng, phase)
@@ -1238,3 +1239,56 @@ def run(ctx):
             sample = {'mode': phase, 'n_jobs': len(case['jobs']), 'ops': [o['op'] for o in case['ops']],
                       'first_command': (obs.get('specs') or [{}])[0].get('command', [''])[-1][:300] if obs.get('specs') else None}
             ctx.case(sample=sample, key=(phase, shape_key(case)), nontrivial=cross)
+
+
+# ------------------------------------------------------------------------------------------
+# Findings on the UNCHANGED tree (all four reproduce on every seed 0..4, quick tier; proposed minimal fixes, not applied,
+# in /verif/proposed_fixes/C18-<key with / -> _>.diff; with the four diffs applied together the check is silent):
+#
+#  extension/added-after-mention-stale-path
+#      `j.command(f'... > {j.ofile}')` then `j.ofile.add_extension('.txt')` (the order shown in the add_extension docstring and
+#      in the repo's own test): the command was interpolated at command() time and keeps `.../ofile`, but output_files /
+#      the consumers' input_files use `.../ofile.txt` -> the producer uploads a file it never wrote.
+#  paths/job-token-collision
+#      Batch._unique_job_token loops `while token in self._job_tokens` but never adds to that set, so two jobs can get the same
+#      5-character token; jobs with the same (or no) name then share `<name>-<token>/`, i.e. local and remote paths of
+#      equally named resources and of code.sh.  Birthday bound: ~74 % for 50 000 equally named jobs (62**5 tokens).
+#      Exercised by restricting the token generator (only for the _unique_job_token caller) to n_jobs..n_jobs+2 values.
+#  paths/input-group-members-with-equal-basename-collide
+#      read_input_group(tumor='gs://b/tumor/calls.vcf', normal='gs://b/normal/calls.vcf'): both members become
+#      `inputs/<root>/calls.vcf`; both symlinks `<root>.tumor` / `<root>.normal` point to the same file.
+#  interpolate/digit-after-reference-captures-another-resource
+#      f'{j.ofile}2' -> `__RESOURCE_FILE__12`: the regex `__RESOURCE_FILE__\d+` takes the digit; if resource 12 exists in the batch
+#      the command silently uses the other resource (and gets its dependency), otherwise BatchException (loud, not counted).
+#
+# Validation record (scratch worktree = unchanged tree + the four proposed fixes, so that exit 1 is due to the break alone;
+# quick tier, seed 0; one break at a time; all exit 1).  "DESIGN" = break listed in DESIGN.md §C18.
+#
+#  D1  DESIGN backend.py copy_input downloads job files from `remote_tmpdir/<uid>/` + extra slash (upload and download
+#             remotes differ)                                   CAUGHT plumbing/producer-uploads-elsewhere, plumbing/group-member-not-transferred
+#  D2  DESIGN job.py `self._dependencies.add(source)` dropped    CAUGHT parents/producer-not-a-parent
+#  D3  own    job.py a whole-group reference does not add the group's members (only `{job.grp}` / `{input_group}` forms)
+#                                                               CAUGHT plumbing/group-member-not-transferred,
+#             plumbing/consumer-does-not-download-the-path-it-uses, input/group-member-not-downloaded, input/referenced-path-not-downloaded
+#  D4  own    job.py path not shell-quoted (only names with spaces, quotes, $, ;, backslash ...)
+#                                                               CAUGHT command/reference-not-a-quoted-path (+ consequences)
+#  D5  own    resource.py ResourceGroup._add_output_path drops the '.' (only write_output of a group)
+#                                                               CAUGHT external/output-not-uploaded-to-destination
+#  D6  own    job.py replacement text passed through regex template expansion (only names with a backslash)
+#                                                               CAUGHT build/dsl-refused-generated-program (re.error)
+#  D7  own    job.py PythonJob hands the remote path of a file argument to the function (python consumers only)
+#                                                               CAUGHT plumbing/consumer-does-not-download-the-path-it-uses, input/referenced-path-not-downloaded
+#  D8  own    backend.py local input uploaded below another random directory than it is downloaded from (local inputs only)
+#                                                               CAUGHT input/downloaded-from-wrong-source, input/group-member-not-downloaded
+#  D9  own    backend.py only one of several write_output destinations of a file is uploaded
+#                                                               CAUGHT external/output-not-uploaded-to-destination
+#  D10 own    job.py > 10 KiB command written to `<dir>/code` but read from `<dir>/code.sh`
+#                                                               CAUGHT command/lost
+#  D11 own    backend.py internal outputs that belong to a resource group are not uploaded
+#                                                               CAUGHT plumbing/producer-uploads-elsewhere, plumbing/group-member-not-transferred
+#  D13 own    batch.py `self._jobs = ordered_jobs` dropped (job submitted before a parent created later; only when a consumer is
+#             created before its producer)                      CAUGHT submit/run-raised (AttributeError on the missing parent)
+#  D14 own    job.py double quotes instead of shlex.quote (only names with $ or a backquote)
+#                                                               CAUGHT command/reference-not-a-quoted-path
+#  (an earlier version consulted /bin/bash for non-canonical quoting; D4 made it execute fragments of generated names, so it
+#   was replaced by the pure-Python shell_literal_word.)
